@@ -292,8 +292,8 @@ func ruleC03(p *Program, r *Run) {
 		ctxObj := objOf(info, call.Args[0])
 		inspectRegion(func(m ast.Node) bool {
 			if as, ok := m.(*ast.AssignStmt); ok && len(as.Lhs) == 1 && objOf(info, as.Lhs[0]) == ctxObj {
-				if lit := litOf(as.Rhs[0]); lit != nil {
-					if md := litField(info, lit, "mode"); md != nil && constName(info, md) == "joinExprMode" {
+				if lit := litOf(p.Constructed(as.Rhs[0])); lit != nil {
+					if md := litField(info, lit, "mode"); md != nil && constName(info, p.Resolve(md)) == "joinExprMode" {
 						onOK = true
 					}
 				}
